@@ -49,7 +49,9 @@ DECIDING = {
             'kill_at_primitive', 'restart_with_journal'),
     'C07': ('vote_granted_then_killed', 'restart_in_election', 'restarted_voter_votes'),
     'C09': ('snapshot_load', 'snapshot_received_completely', 'snapshot_transfer_restarted', 'snapshot_transfer_cut_midway', 'kill_during_dump_write',
-            'snapshot_taken_with_consumers'),
+            'snapshot_taken_with_consumers', 'fork_child_outlived_its_tick', 'fork_child_killed_by_signal_parent_alive',
+            'fork_child_survived_its_parent', 'fork_child_stopped_by_parent', 'user_async_serializing_observed',
+            'user_serializer_snapshot_loaded'),
     'C10': ('request_while_change_uncommitted', 'membership_entry_truncated', 'leader_with_uncommitted_change', 'shrunk_to_one',
             'membership_change_committed', 'removed_node_shut_down'),
     'C12': ('apply_raised', 'raise_on_follower', 'raise_replayed_after_restart'),
@@ -94,6 +96,9 @@ def gen_cfg(prop, tier, seed, i):
         cfg['big_args'] = [cfg['batch'] - 30 if cfg['batch'] > 40 else 40, cfg['batch'] + 10, 3 * cfg['batch'] + 5]
         cfg['big_args'] = [min(x, 20000) for x in cfg['big_args']]
     cfg['msg_cap'] = 150000
+    if prop in ('C01', 'C02', 'C03', 'C04'):
+        # read-only nodes attached to some clusters: they forward commands, receive the log, and must never count
+        cfg['n_ro'] = pick(random.Random(h32('ro', prop, seed, i)), [0, 0, 0, 1, 2])
     # property specific emphasis ---------------------------------------------------------
     if prop == 'C03':
         w['partition'] = max(w['partition'], 0.6)
@@ -122,6 +127,22 @@ def gen_cfg(prop, tier, seed, i):
         w['partition'] = max(w['partition'], 0.8)
         w['heal'] = max(w['heal'], 0.4)
         cfg['dt_heavy'] = r.random() < 0.3
+        r2 = random.Random(h32('c20dyn', seed, i))
+        if r2.random() < 0.25:
+            # "a majority of the voters it knows": the member set changes at run time (voters added that never answer,
+            # voters removed) while links are cut
+            cfg['sim'] = 'member'
+            cfg['n'] = pick(r2, [2, 2, 3, 4])
+            cfg['journal'] = 'memory'
+            cfg['compact_min'] = 10 ** 9
+            w['compact'] = 0
+            w['member'] = pick(r2, [0.5, 1.5])
+            w['operator'] = pick(r2, [0.3, 1.0])
+            cfg['readd_anytime'] = False
+            cfg['queue'] = 100000
+            cfg.pop('consumers', None)
+            cfg['batch'] = pick(r2, [200, 4096, 65536])
+            cfg['chunk'] = 65536
     if prop == 'C06':
         cfg['journal'] = pick(r, ['file', 'file+dump'], [1, 2])
         cfg['kill_points'] = True
@@ -153,6 +174,18 @@ def gen_cfg(prop, tier, seed, i):
         cfg['raft_min'], cfg['raft_max'] = pick(r, [(0.4, 1.4), (0.31, 0.5), (0.4, 0.45)])
         cfg['batch'] = pick(r, [200, 4096, 65536])
         cfg['ext'] = ['recovery']
+        r2 = random.Random(h32('c07dyn', seed, i))
+        if r2.random() < 0.2:
+            # candidates and voters that joined at run time: journaled nodes restart with the member list they were
+            # first started with and rebuild the current one from their journal
+            cfg['sim'] = 'member'
+            cfg['n'] = pick(r2, [1, 2, 3])
+            w['member'] = pick(r2, [0.5, 1.5])
+            w['operator'] = pick(r2, [0.5, 1.0])
+            cfg['readd_anytime'] = False
+            cfg['queue'] = 100000
+            cfg['restart_with_first_list'] = True
+            cfg.pop('consumers', None)
     if prop == 'C09':
         cfg['journal'] = pick(r, ['memory', 'file+dump', 'dump'], [2, 2, 1])
         cfg['compact_min'] = pick(r, [3, 8, 30])
@@ -181,6 +214,11 @@ def gen_cfg(prop, tier, seed, i):
         # a slower machine (more virtual time per clock read): snapshot transfers then span several leader ticks
         cfg['clock_eps'] = pick(r, [2e-5, 2e-4, 1e-3], [3, 2, 2])
         cfg['steps'] = pick(r, [800, 2000, 4000], [2, 3, 2])
+        if cfg['journal'] in ('file+dump', 'dump'):
+            # serializer modes of the statement: inline file write, fork child, user-supplied functions (sync / with checker)
+            cfg['ser_mode'] = pick(random.Random(h32('sermode', prop, seed, i)), ['file', 'fork', 'user', 'user_async'], [2, 3, 2, 2])
+    if prop == 'C06' and cfg['journal'] == 'file+dump':
+        cfg['ser_mode'] = pick(random.Random(h32('sermode', prop, seed, i)), ['file', 'fork', 'user'], [3, 2, 1])
     if prop == 'C10':
         cfg['n'] = pick(r, [1, 2, 3, 4], [1, 2, 3, 2])
         cfg['journal'] = 'memory'
